@@ -214,11 +214,11 @@ func runC10(c *Ctx) {
 				}
 				// every path to the call decided the normalisation: passes an If on the type
 				if ok, _ := g.MustPassBefore(n, func(k int) bool {
-					ifi, ok := g.Ins[k].(*ssa.If)
+					_, ok := g.Ins[k].(*ssa.If)
 					if !ok {
 						return false
 					}
-					f, _ := condFact(ifi.Cond, true)
+					f, _ := condFact(g.Cond(k), true)
 					return f.X != nil && (isType(f.X) || f.Y != nil && isType(f.Y))
 				}); !ok {
 					okOrder = false
@@ -436,12 +436,12 @@ func runC10(c *Ctx) {
 	// ================= R4 =================
 	c.floor("C10.R4", 4)
 	nconv := 0
-	for _, fn := range m.Funcs {
+	for _, fn := range m.scanFuncs() {
 		if fn.Pkg != pkg {
 			continue
 		}
 		seq := 0
-		for _, b := range fn.Blocks {
+		for _, b := range m.blocksOf(fn) {
 			for _, in := range b.Instrs {
 				cv, ok := in.(*ssa.Convert)
 				if !ok {
